@@ -79,6 +79,12 @@ def binop(op, rm, a, b, w):
         r = z3.fpMul(rm, fa, fb)
     elif op == 'fdiv':
         r = z3.fpDiv(rm, fa, fb)
+        ta, tb = _int_tag(a), _int_tag(b)
+        if ta is not None and tb is not None and ta[1] <= SB[w] - 1 and tb[1] <= SB[w] - 1:
+            res = done(from_fp(r, w, x86_nan2(a, b, w)), a, b)
+            if not isinstance(res, int):
+                _DIV_TAG[res.get_id()] = (res, ta[0], tb[0])
+            return res
     elif op == 'frem':
         # C fmod: truncated remainder, sign of dividend
         r = fmod_term(fa, fb, w)
@@ -141,14 +147,95 @@ def fcmp(pred, a, b, w):
     return t
 
 
+# ---- exact-quotient lemma -------------------------------------------------------------------------------------------
+# AVEL divides small integers as  cvtt(fdiv(cvt(a), cvt(b))).  Bit-blasting a 24/53-bit IEEE divider is out of reach of every
+# back end here, so the pattern is decided through this (pen-and-paper) lemma, stated in DESIGN.md:
+#   for non-negative integers a, b < 2^(p-1) (p = 24 / 53 significand bits) and every rounding mode,
+#   trunc(fl(a / b)) == floor(a / b) when b != 0, and fl(a / b) is inf or NaN when b == 0.
+# (cvt is exact below 2^p; k = floor(a/b) is representable so fl >= k; the next representable number above a/b is
+#  < a/b + (a/b) 2^(1-p) <= k + 1 - 1/b + a 2^(1-p) / b < k + 1.)
+# Terms are tagged syntactically; a tagged quotient that reaches anything but a truncating conversion keeps its IEEE meaning.
+_INT_TAG = {}
+_DIV_TAG = {}
+LEMMA_USES = [0]
+
+
+def reset_tags():
+    _INT_TAG.clear()
+    _DIV_TAG.clear()
+
+
+def _core_unsigned(x, wi):
+    """-> (core term, significant bits): x == zext(core), found syntactically"""
+    from .symex import klz
+    z = klz(x, wi)
+    cw = wi - z
+    if cw <= 0:
+        return z3.BitVecVal(0, 1), 1
+    while True:
+        k = x.decl().kind()
+        if k == z3.Z3_OP_ZERO_EXT and x.arg(0).size() >= cw:
+            x = x.arg(0)
+            continue
+        if k == z3.Z3_OP_CONCAT:
+            ch = x.children()
+            low = ch[-1]
+            if low.size() >= cw and len(ch) >= 2:
+                x = low
+                continue
+        break
+    if x.size() > cw:
+        x = z3.Extract(cw - 1, 0, x)
+    return x, cw
+
+
+def _int_tag(a):
+    if isinstance(a, int):
+        return None
+    t = _INT_TAG.get(a.get_id())
+    return (t[1], t[2]) if t is not None else None
+
+
 def si_to_fp(rm, x, wi, wf, signed=True):
     t = z3.fpSignedToFP(rm, bv(x, wi), SORT[wf]) if signed else z3.fpUnsignedToFP(rm, bv(x, wi), SORT[wf])
-    return done(z3.fpToIEEEBV(t), x)
+    r = done(z3.fpToIEEEBV(t), x)
+    if not isinstance(r, int) and not isinstance(x, int):
+        from .symex import klz
+        z = klz(x, wi)
+        if z >= (1 if signed else 0) and wi - z >= 1:
+            core, cw = _core_unsigned(x, wi)
+            _INT_TAG[r.get_id()] = (r, core, cw)
+    return r
+
+
+def _tagged_quotient(a, wi, signed):
+    """(value, in-range) of a truncating conversion of a tagged quotient, or None"""
+    if isinstance(a, int):
+        return None
+    t = _DIV_TAG.get(a.get_id())
+    if t is None:
+        return None
+    _, ca, cb = t
+    W = max(ca.size(), cb.size())
+    A = z3.ZeroExt(W - ca.size(), ca) if ca.size() < W else ca
+    B = z3.ZeroExt(W - cb.size(), cb) if cb.size() < W else cb
+    q = z3.UDiv(A, B)
+    lim = wi - 1 if signed else wi
+    ok = B != 0
+    if W > lim:
+        ok = z3.And(ok, z3.Extract(W - 1, lim, q) == 0)
+    v = z3.ZeroExt(wi - W, q) if W < wi else (z3.Extract(wi - 1, 0, q) if W > wi else q)
+    return v, ok
 
 
 def fp_to_int(a, wf, wi, signed, mode=None):
     """-> (value, in_range bool).  mode None = truncation (fptosi/fptoui, cvtt*)."""
     mode = mode if mode is not None else RTZ
+    if mode.eq(RTZ):
+        t = _tagged_quotient(a, wi, signed)
+        if t is not None:
+            LEMMA_USES[0] += 1
+            return t
     f = to_fp(a, wf)
     ri = z3.fpRoundToIntegral(mode, f)
     if signed:
